@@ -28,6 +28,14 @@ NEEDS = {
  'seed-C06-2': 'AVX2 u8 maximum over a matrix with an odd number of rows (2-row unrolled loop without tail): aligned 32-byte load of the row one past the end — stale scores in a reused buffer, past the allocation in an exact-capacity one',
  'seed-C07-2': 'a non-empty f32 score matrix with no finite cell (every window contains N): AVX2 max() returns f32::MIN, a value stored in no cell',
  'seed-C08-2': 'AVX2 host and a window whose rounded-up 8-bit cell sum exceeds 255 (consensus / near-perfect match): wrapping add gives a tiny byte score below the scaled real score (same mechanism as seed-C02-1, produced independently)',
+ 'seed-C09-2': 'a frequency row whose total is NaN (a NaN cell, or +inf and -inf together), e.g. a UniPROBE record with a `nan` cell: FrequencyMatrix::new accepts it',
+ 'seed-C10-2': 'the wildcard column: complement(N) becomes T, so reverse_complement fills column N from the T column; visible when the wildcard column is inspected, a sequence containing N is scored, or a reverse-complemented count matrix is converted onward',
+ 'seed-C14-2': 'JASPAR-2016 reader: one wide record followed by at least two much narrower ones whose combined length is at most half the buffer capacity; chunk-size dependent (fails with 64-/7-/1-byte chunks, passes with a whole cursor)',
+ 'seed-C15-2': 'malformed input with more than 64 bytes remaining at the failure point and a multi-byte UTF-8 character straddling byte 64 of the remainder: the error conversion slices inside a character and panics',
+ 'seed-C16-2': 'an active sequence with an N/X outside its motif window: Background::from_counts never writes the frequency of the last symbol, so the reported background differs from the normalised counts',
+ 'seed-C17-2': 'log_odds(background, base=b) with a non-uniform background and b != 2: the rescale path calls to_scoring() (log2) instead of to_scoring_with_base(base)',
+ 'seed-C18-2': 'StripedScores view when ceil((L-M+1)/32) < ceil(L/32), i.e. L mod 32 in 1..M-1 (M=15: L in 65..78): the exported row count is taken from the number of valid positions while the stride stays that of the full matrix',
+ 'seed-C19-2': 'DenseMatrix::fill on a shape with row padding (columns*size_of(T) not a multiple of 32: u8x5, f32x5, i64x1): ravel_mut covers rows*columns instead of rows*stride elements, trailing rows keep old contents',
 }
 ids = sys.argv[1:] or sorted(d for d in os.listdir(os.path.join(VERIF, 'seeded')) if os.path.isdir(os.path.join(VERIF, 'seeded', d)))
 for sid in ids:
